@@ -69,10 +69,18 @@ let assoc_of_tok t =
 let tok_of_assoc a = if a = [] then "-" else
   String.concat "|" (List.map (fun (n, v) -> string_of_coq n ^ "=" ^ tok_of_value v) a)
 
-let ebs_of_tok t = if t = "-" then [] else
+let ebs_all_of_tok t = if t = "-" then [] else
   List.map (fun e -> match Stdlib.String.split_on_char ':' e with
     | [n; dt; opt] -> ((coq_string_of n, z_of_string dt), z_of_string opt)
     | _ -> failwith ("bad extra-bytes descriptor " ^ e)) (Stdlib.String.split_on_char ';' t)
+(* an entry with data_type -1 is not a descriptor: "options" undocumented bytes trail every record (allowed last only) *)
+let is_trail ((_, dt), _) = (match dt with Zneg _ -> true | _ -> false)
+let ebs_of_tok t = List.filter (fun e -> not (is_trail e)) (ebs_all_of_tok t)
+let trail_of_tok t =
+  let l = ebs_all_of_tok t in
+  let rec last_only = function [] -> true | [_] -> true | e :: r -> (not (is_trail e)) && last_only r in
+  if not (last_only l) then failwith "undocumented bytes before a descriptor" else
+  List.fold_left (fun acc ((_, _), opt as e) -> if is_trail e then Z.add acc opt else acc) Z0 l
 let rec chunk n l = if l = [] then [] else
   let rec take k l acc = if k = 0 then (List.rev acc, l) else match l with [] -> (List.rev acc, []) | x :: r -> take (k - 1) r (x :: acc) in
   let (a, b) = take n l [] in a :: chunk n b
@@ -121,12 +129,20 @@ let dispatch cmd a =
   let minor i = nat_of_int (int_of_string a.(i)) in
   let ext i = (a.(i) = "T") in
   match cmd with
-  | "names" -> res (fun l -> Stdlib.String.concat "," (List.map string_of_coq l)) (spec_leaf_names (zi 0) (ebs_of_tok a.(1)))
-  | "psize" -> res string_of_z (spec_point_size (zi 0) (ebs_of_tok a.(1)))
-  | "dec" -> let f = zi 0 and ebs = ebs_of_tok a.(1) in dec_many (spec_dec_point f ebs) (spec_point_size f ebs) (bytes_of_tok a.(2))
-  | "gdec" -> let f = zi 0 and ebs = ebs_of_tok a.(1) in dec_many (gen_dec_point f ebs) (spec_point_size f ebs) (bytes_of_tok a.(2))
-  | "enc" -> enc_many (spec_enc_point (zi 0) (ebs_of_tok a.(1))) a.(2)
-  | "genc" -> enc_many (gen_enc_point (zi 0) (ebs_of_tok a.(1))) a.(2)
+  | "names" -> res (fun l -> Stdlib.String.concat "," (List.map string_of_coq l)) (spec_leaf_names_rl (zi 0) (ebs_of_tok a.(1)) (trail_of_tok a.(1)))
+  | "psize" -> res string_of_z (spec_point_size_rl (zi 0) (ebs_of_tok a.(1)) (trail_of_tok a.(1)))
+  | "dec" -> let f = zi 0 and ebs = ebs_of_tok a.(1) and t = trail_of_tok a.(1) in
+             dec_many (spec_dec_point_rl f ebs t) (spec_point_size_rl f ebs t) (bytes_of_tok a.(2))
+  | "gdec" -> let f = zi 0 and ebs = ebs_of_tok a.(1) and t = trail_of_tok a.(1) in
+              dec_many (gen_dec_point_rl f ebs t) (spec_point_size_rl f ebs t) (bytes_of_tok a.(2))
+  | "enc" -> enc_many (spec_enc_point_rl (zi 0) (ebs_of_tok a.(1)) (trail_of_tok a.(1))) a.(2)
+  | "genc" -> enc_many (gen_enc_point_rl (zi 0) (ebs_of_tok a.(1)) (trail_of_tok a.(1))) a.(2)
+  (* resolve <format> <descriptors> <T|F has an Extra Bytes VLR> <record length of the header>
+     -> laspy's layout of the file's records (model of LasHeader.read_from): number of leaves, record length; and the specification's *)
+  | "resolve" -> let out r = res (fun (n, l) -> string_of_z n ^ " " ^ string_of_z l) r in
+                 out (gen_record_summary (zi 0) (ebs_of_tok a.(1)) (a.(2) = "T") (zi 3)) ^ " / " ^
+                 out (spec_record_summary (zi 0) (ebs_of_tok a.(1)) (a.(2) = "T") (zi 3))
+  | "legacy_ok" -> tok_of_bool (spec_legacy_ok (zi 0) (zi 1) (zi 2))
   | "hdr_names" -> names_tok (spec_hdr_layout (minor 0))
   | "dec_hdr" -> dec_out (spec_dec_header (minor 0) (bytes_of_tok a.(1)))
   | "enc_hdr" -> res tok_of_bytes (spec_enc_header (minor 0) (vals_of_tok a.(1)))
